@@ -8,6 +8,7 @@ import (
 
 	"0chain.net/chaincore/block"
 	cstate "0chain.net/chaincore/chain/state"
+	"0chain.net/chaincore/node"
 	"0chain.net/chaincore/threshold/bls"
 	"0chain.net/chaincore/transaction"
 	"0chain.net/core/encryption"
@@ -45,6 +46,7 @@ func genVC(sel bool) func(r *sim.RNG, p *sim.Plan, tier string) {
 			sharders = r.Range(2, 4)
 		}
 		p.Cfg["view_change"] = 1
+		p.Cfg["ed25519"] = 0 // the world's nodes hold bls0chain keys; the contract verifies their DKG acknowledgements with the chain's scheme
 		p.Cfg["miners"] = int64(miners)
 		p.Cfg["sharders"] = int64(sharders)
 		p.Cfg["clients"] = int64(r.Range(2, 3))
@@ -148,6 +150,8 @@ type oracle38 struct {
 	prevMB   *block.MagicBlock
 	firstMB  int64
 	mbs      int
+	mbRounds []int64 // rounds at which a magic block was created
+	cycleStarts []int64 // rounds at which Wait -> Start was taken (a new cycle begins)
 }
 
 func (oc *oracle38) violate(w *ledger.World, oracle, sig, detail string) {
@@ -184,6 +188,22 @@ func (p postReader) GetTrieNode(key string, v util.MPTSerializable) error {
 	}
 	_, err := v.UnmarshalMsg(raw)
 	return err
+}
+
+// poolKeys lists the node ids of a pool. A pool decoded from the trie (msgp)
+// only fills its Nodes slice, a pool built with AddNode fills both.
+func poolKeys(p *node.Pool) []string {
+	if p == nil {
+		return nil
+	}
+	seen := map[string]bool{}
+	for _, n := range p.CopyNodes() {
+		seen[n.GetKey()] = true
+	}
+	for _, k := range p.Keys() {
+		seen[k] = true
+	}
+	return sortedKeys(seen)
 }
 
 func nextPhase(p minersc.Phase) minersc.Phase {
@@ -403,12 +423,17 @@ func (oc *oracle38) checkPhase(w *ledger.World, bc *ledger.BlockCtx, pre, post *
 			oc.violate(w, "phase", "C38/restart-kept-dkg-data", fmt.Sprintf("after a restart: %d mpks, %d share sets, %d dkg miners", len(post.mpks.Mpks), len(post.gsos.Shares), len(post.dmn.SimpleNodes)))
 		}
 	}
+	if from == minersc.Wait && to == minersc.Start {
+		oc.restarts = post.phase.Restarts
+		oc.cycleStarts = append(oc.cycleStarts, round)
+	}
 	oc.phase, oc.restarts, oc.entered = to, post.phase.Restarts, round
 }
 
 func (oc *oracle38) checkMagicBlock(w *ledger.World, round int64, mb *block.MagicBlock) {
 	w.Tr.Probe("magic_block_created")
 	oc.mbs++
+	oc.mbRounds = append(oc.mbRounds, round)
 	if oc.firstMB == 0 {
 		oc.firstMB = round
 	}
@@ -427,11 +452,11 @@ func (oc *oracle38) checkMagicBlock(w *ledger.World, round int64, mb *block.Magi
 		}
 		return n
 	}
-	if common(mb.Miners.Keys(), prev.Miners.Keys()) < 1 {
-		oc.violate(w, "magic-block", "C38/magic-block-shares-no-miner-with-previous", fmt.Sprintf("miners %d, previous %d", mb.Miners.Size(), prev.Miners.Size()))
+	if common(poolKeys(mb.Miners), poolKeys(prev.Miners)) < 1 {
+		oc.violate(w, "magic-block", "C38/magic-block-shares-no-miner-with-previous", fmt.Sprintf("miners %d, previous %d", len(poolKeys(mb.Miners)), len(poolKeys(prev.Miners))))
 	}
-	if common(mb.Sharders.Keys(), prev.Sharders.Keys()) < 1 {
-		oc.violate(w, "magic-block", "C38/magic-block-shares-no-sharder-with-previous", fmt.Sprintf("sharders %d, previous %d", mb.Sharders.Size(), prev.Sharders.Size()))
+	if common(poolKeys(mb.Sharders), poolKeys(prev.Sharders)) < 1 {
+		oc.violate(w, "magic-block", "C38/magic-block-shares-no-sharder-with-previous", fmt.Sprintf("sharders %d, previous %d", len(poolKeys(mb.Sharders)), len(poolKeys(prev.Sharders))))
 	}
 	if mb.StartingRound != round+minersc.PhaseRounds[minersc.Wait] {
 		oc.violate(w, "magic-block", "C38/magic-block-starting-round", fmt.Sprintf("starting round %d, created at %d, wait %d", mb.StartingRound, round, minersc.PhaseRounds[minersc.Wait]))
@@ -441,7 +466,7 @@ func (oc *oracle38) checkMagicBlock(w *ledger.World, round int64, mb *block.Magi
 func (oc *oracle38) AfterBlock(w *ledger.World, bc *ledger.BlockCtx) {
 	if bc.B.MagicBlock != nil {
 		w.Tr.Probe("view_change_block")
-		w.Tr.Event("view change at round %d: %d miners %d sharders", bc.B.Round, bc.B.MagicBlock.Miners.Size(), bc.B.MagicBlock.Sharders.Size())
+		w.Tr.Event("view change at round %d: %d miners %d sharders", bc.B.Round, len(poolKeys(bc.B.MagicBlock.Miners)), len(poolKeys(bc.B.MagicBlock.Sharders)))
 	}
 }
 
@@ -557,10 +582,10 @@ func selectionsOf(w *ledger.World, pre *vcView, mb *block.MagicBlock, sharderSta
 	lf := w.C.GetLatestFinalizedMagicBlock(context.Background())
 	prevM, prevS := map[string]bool{}, map[string]bool{}
 	if lf != nil && lf.MagicBlock != nil {
-		for _, k := range lf.MagicBlock.Miners.Keys() {
+		for _, k := range poolKeys(lf.MagicBlock.Miners) {
 			prevM[k] = true
 		}
-		for _, k := range lf.MagicBlock.Sharders.Keys() {
+		for _, k := range poolKeys(lf.MagicBlock.Sharders) {
 			prevS[k] = true
 		}
 	}
@@ -574,7 +599,7 @@ func selectionsOf(w *ledger.World, pre *vcView, mb *block.MagicBlock, sharderSta
 		}
 		ms.cands[id] = uint64(sn.TotalStaked)
 	}
-	for _, k := range mb.Miners.Keys() {
+	for _, k := range poolKeys(mb.Miners) {
 		ms.result[k] = true
 	}
 	out = append(out, ms)
@@ -583,7 +608,7 @@ func selectionsOf(w *ledger.World, pre *vcView, mb *block.MagicBlock, sharderSta
 		for _, id := range pre.keep {
 			ss.cands[id] = sharderStake(id)
 		}
-		for _, k := range mb.Sharders.Keys() {
+		for _, k := range poolKeys(mb.Sharders) {
 			ss.result[k] = true
 		}
 		out = append(out, ss)
@@ -784,7 +809,7 @@ func finishVC(prop string) func(w *ledger.World, r *ledger.Runner) {
 		oc := agentReg[r].oc
 		a := agentReg[r]
 		p := r.Plan
-		bound := a.regDone + 2*p.CfgInt("pr_start", 2) + p.CfgInt("pr_contribute", 2) + p.CfgInt("pr_share", 2) + p.CfgInt("pr_publish", 2) + 1
+		bound := a.regDone + p.CfgInt("pr_start", 2) + sumPhases(p)
 		executed := int64(r.Blocks)
 		if executed < bound {
 			return // the (shrunk) plan is shorter than one cycle
@@ -825,8 +850,28 @@ func finishVC(prop string) func(w *ledger.World, r *ledger.Runner) {
 		}
 		w.Tr.Probe("honest_run_long_enough")
 		if oc.firstMB == 0 || oc.firstMB > bound {
-			w.Tr.Violate(&sim.Violation{Prop: "C38", Oracle: "liveness", Sig: "C38/no-magic-block-within-one-cycle-all-honest",
+			w.Tr.Violate(&sim.Violation{Prop: "C38", Oracle: "liveness", Sig: "C38/no-magic-block-within-one-cycle-all-honest/first-cycle",
 				Detail: fmt.Sprintf("registrations complete at round %d, first magic block at round %d (0 = never), bound %d, %d rounds executed", a.regDone, oc.firstMB, bound, executed)})
+			return
+		}
+		// later cycles: from the round the machine returned to Start
+		full := sumPhases(p)
+		for _, cs := range oc.cycleStarts {
+			if cs+full > executed {
+				continue
+			}
+			w.Tr.Probe("honest_second_cycle_long_enough")
+			found := false
+			for _, m := range oc.mbRounds {
+				if m > cs && m <= cs+full {
+					found = true
+				}
+			}
+			if !found {
+				w.Tr.Violate(&sim.Violation{Prop: "C38", Oracle: "liveness", Sig: "C38/no-magic-block-within-one-cycle-all-honest/after-a-view-change",
+					Detail: fmt.Sprintf("the machine returned to Start at round %d; no magic block by round %d (%d rounds executed, magic blocks at %v)", cs, cs+full, executed, oc.mbRounds)})
+				return
+			}
 		}
 	}
 }
